@@ -96,6 +96,7 @@ const (
 	FaultTimeout     = "timeout_error"       // the call fails with a timeout-class error that wraps context.DeadlineExceeded
 	FaultPoolClosed  = "pool_closed_error"   // the call fails with an error that wraps context.Canceled
 	FaultNilNil      = "nil_without_error"   // lookups: no record and no error
+	FaultTemporary   = "temporary_error"     // the call fails with a Temporary()/Timeout() error that wraps no context error
 )
 
 // FaultPlan decides whether the occ-th (1-based) call of op inside the request
@@ -285,11 +286,20 @@ func (timeoutError) Timeout() bool   { return true }
 func (timeoutError) Temporary() bool { return true }
 func (timeoutError) Unwrap() error   { return context.DeadlineExceeded }
 
+// temporaryError is a net.OpError-like failure: Temporary() and Timeout() say yes, no context error is wrapped.
+type temporaryError struct{}
+
+func (temporaryError) Error() string   { return "injected storage fault: dial tcp 192.0.2.7:5432: i/o timeout" }
+func (temporaryError) Timeout() bool   { return true }
+func (temporaryError) Temporary() bool { return true }
+
 // errFor returns the error a failing call reports for the given fault kind.
 func errFor(kind string) error {
 	switch kind {
 	case FaultTimeout:
 		return timeoutError{}
+	case FaultTemporary:
+		return temporaryError{}
 	case FaultPoolClosed:
 		return fmt.Errorf("injected storage fault: connection pool closed: %w", context.Canceled)
 	case FaultCtx:
@@ -393,7 +403,7 @@ func (w *World) GetCA(ctx context.Context) (*key.CertificateAndKey, error) {
 
 func (w *World) keyFault(f string, base *key.CertificateAndKey) (*key.CertificateAndKey, error) {
 	switch f {
-	case FaultError, FaultTimeout, FaultPoolClosed, FaultCtx:
+	case FaultError, FaultTimeout, FaultTemporary, FaultPoolClosed, FaultCtx:
 		return nil, errFor(f)
 	case FaultNilRecord:
 		return nil, nil
